@@ -52,6 +52,10 @@ def r1_acks(report, repo):
   f = repo.func(AP, 'AdbConnection._handle_message_for_stream')
   st, msg = lib.param_names(f.node)[1], lib.param_names(f.node)[2]
 
+  # the local holding the destination stream of a foreign message
+  dst = lib.local_from(f, lib.calls(name='self._stream_transport_map.get'),
+                       'dest_transport')
+
   def classify(expr, steps):
     if isinstance(expr, ast.Compare) and len(expr.ops) == 1:
       l, r, op = expr.left, expr.comparators[0], expr.ops[0]
@@ -69,10 +73,8 @@ def r1_acks(report, repo):
     d = dotted(expr)
     if d == st + '.remote_id':
       return 'have_remote'
-    if d == 'dest_transport':
+    if d == dst:
       return 'dest_known'
-    if d == 'msg':
-      return None
     return None
 
   atoms = ['legal', 'mine', 'is_wrte', 'is_clse', 'is_okay', 'have_remote',
@@ -123,7 +125,7 @@ def r1_acks(report, repo):
       return None
     enq = p.calls(attr='enqueue_message')
     if v['dest_known']:
-      if len(enq) != 1 or dotted(enq[0].func.value) != 'dest_transport':
+      if len(enq) != 1 or dotted(enq[0].func.value) != dst:
         return 'other-stream-row: message not enqueued for its stream'
     elif enq:
       return 'unknown-row: message enqueued without a destination'
@@ -380,14 +382,18 @@ def r4_r5_locks(report, repo):
                  w.ast, 'wait() is called holding the condition')
     for e in elect:
       fs = e.succ('F')
-      region = [fs] + g.reach([fs], avoid=lambda n: n is w or n is e)
+      # nodes executed between the failed election and wait()
+      region = [] if fs is w else [fs] + g.reach(
+          [fs], avoid=lambda n: n is w or n is e)
+      reaches_wait = fs is w or any(x is w for x in g.reach(
+          [fs], avoid=lambda n: n is e))
       rel = [n for n in region if any(
           op == 'release' and lk == COND
           for op, lk in locks.lock_events(n, names))]
       bad = [r for r in rel if any(x is w for x in g.reach(
           [r], avoid=lambda n: n is e))]
       report.check(
-          not bad and any(x is w for x in region), rule5, f.qualname,
+          not bad and reaches_wait, rule5, f.qualname,
           'continuous-hold', w.ast,
           'the condition is held continuously from the failed election to '
           'wait()',
@@ -522,8 +528,11 @@ def r7_buffer(report, repo):
                'read() waits until enough bytes are buffered')
   sz = [n_ for n_ in walk_no_nested(f.node) if isinstance(n_, ast.Assign) and
         dotted(n_.targets[0]) == 'self._buffer_size']
-  ok = len(sz) == 1 and call_name(sz[0].value) == 'len' and \
-      core.is_name(sz[0].value.args[0], 'push_back')
+  # the remainder is what is put back at the front of the buffer
+  back = [dotted(c.args[0]) for c in core.calls_in(f.node, attr='appendleft')
+          if c.args]
+  ok = len(sz) == 1 and call_name(sz[0].value) == 'len' and len(back) == 1 \
+      and dotted(sz[0].value.args[0]) == back[0]
   report.check(ok, rule, f.qualname, 'size-of-pushback', f.node,
                'the buffer size becomes the size of the unread remainder')
 
